@@ -928,7 +928,7 @@ Proof.
   - intros id' t1 t2 [H1|H1] [H2|H2]; try discriminate. eauto.
   - intros id' [Hr|Hr]; [discriminate|]. auto.
   - intros id' c' [Hr|Hr] Hc'; [discriminate|]. eauto.
-  - intros id' total [Hw|Hw]; [discriminate|]. destruct (Nat.eqb_spec id id'); auto. subst id'.
+  - intros id' total [Hw|Hw]; [discriminate|]. destruct (Nat.eqb_spec id id') as [<-|Hne]; [|simpl; auto].
     apply Forall_app in F. destruct F as [_ F2]. inversion F2 as [|? ? (Fa & Fb & Fc) F3]; subst.
     unfold kid, koff, ktot in *; simpl in *. rewrite (H _ _ _ Hw Fb). lia.
 Qed.
@@ -953,8 +953,9 @@ Proof.
   - intros id t1 t2 [X|X] [Y|Y]; try discriminate. eauto.
   - intros id [Hr|Hr]; [discriminate|]. auto.
   - intros id c' [Hr|Hr] Hc'; [discriminate|]. eauto.
-  - intros id total [Hw|Hw]; [discriminate|]. simpl. destruct (Nat.eqb_spec n id); auto. subst id.
-    destruct Hw as [Hw|Hw]; [discriminate|]. apply (fresh_no_event _ _ B0) in Hw. simpl in Hw. lia.
+  - intros id total [Hw|Hw]; [discriminate|]. simpl. destruct (Nat.eqb_spec n id) as [<-|Hne].
+    + destruct Hw as [Hw|Hw]; [discriminate|]. apply (fresh_no_event _ _ B0) in Hw. simpl in Hw. lia.
+    + exact (K id total Hw).
 Qed.
 
 Lemma In_ECb_cb_ids id st q t : In (ECb id st q) t -> In id (cb_ids t).
@@ -977,7 +978,7 @@ Proof.
     + apply E; auto.
   - eapply Forall_impl; [|exact F2]. intros k (X & Y & Z). auto.
   - intros id' q' [Hq|Hq].
-    + inversion Hq; subst. exists tot. split; auto. rewrite Fa. auto.
+    + inversion Hq; subst. exists tot. split; auto.
     + destruct (G _ _ Hq) as (total & G1 & G2). eauto.
   - intros id' t1 t2 [X|X] [Y|Y]; try discriminate. eauto.
   - intros id' [Hr|Hr]; [discriminate|]. destruct (I _ Hr) as [X|[X|X]]; auto.
@@ -988,3 +989,73 @@ Proof.
 Qed.
 
 Definition Inv2 (s : st) : Prop := I2 (map lkey (live s)) (next_id s) (tr s).
+
+Lemma map_kid_lkey l : map kid (map lkey l) = map r_id l.
+Proof. rewrite map_map. reflexivity. Qed.
+
+Lemma map_lkey_set_err c l : map lkey (map (set_err c) l) = map lkey l.
+Proof. rewrite map_map. reflexivity. Qed.
+
+Lemma lkey_finish (p c : list req) r r' rest :
+  lkey r' = lkey r -> map lkey (p ++ (c ++ [r']) ++ rest) = map lkey (p ++ c ++ r :: rest).
+Proof. intros E. rewrite <- !app_assoc. simpl. rewrite !map_app. simpl. rewrite E. reflexivity. Qed.
+
+Lemma Inv2_prim s s' : prim s s' -> Inv1 s -> Inv2 s -> Inv2 s'.
+Proof.
+  intros P I1 I. unfold Inv2 in *. destruct P; unfold live, call0, finish_head, flush in *; cbn in *.
+  - destruct H as (E1 & E2 & E3 & _ & _ & _ & _ & _ & _ & E4 & E5). rewrite E1, E2, E3, E4, E5. exact I.
+  - (* chunk *)
+    destruct I1 as [_ Hw _ _]. unfold live in Hw. rewrite H in *.
+    apply Forall_app3 in Hw. destruct Hw as (_ & _ & Hw). inversion Hw as [|? ? Hr _]; subst.
+    destruct (req_update_spec r n Hr H0) as (_ & _ & Ei & Et & Eo & _ & _).
+    rewrite !app_assoc in *. rewrite map_app in *. simpl in *.
+    unfold lkey at 2. rewrite Ei, Et, Eo.
+    apply I2_chunk; auto. destruct Hr as [_ Hr]. lia.
+  - (* finish *)
+    rewrite H in I.
+    match goal with |- I2 (map lkey (_ ++ (_ ++ [?r']) ++ _)) _ _ =>
+      assert (E : lkey r' = lkey r) by (destruct (_ =? _)%Z; reflexivity) end.
+    rewrite (lkey_finish _ _ _ _ _ E). exact I.
+  - (* fail *)
+    rewrite H in I.
+    match goal with |- I2 (map lkey (_ ++ (_ ++ [?r']) ++ _)) _ _ =>
+      assert (E : lkey r' = lkey r) by (destruct (_ =? _)%Z; reflexivity) end.
+    rewrite (lkey_finish _ _ _ _ _ E). exact I.
+  - (* write_fail *)
+    pose proof (check_some_neg _ _ H) as He.
+    pose proof I as [_ B C _ _ _ _ _ _ _ _].
+    apply I2_eret_fail; [lia | lia | | | apply I2_ewrite; auto].
+    + simpl. intros X. apply (cb_ids_fresh _ _ B) in X. lia.
+    + intros X. apply in_map_iff in X. destruct X as (k & Ek & Hk).
+      rewrite Forall_forall in C. apply C in Hk. lia.
+  - (* enqueue *)
+    rewrite !app_assoc. rewrite map_app. simpl. rewrite <- !app_assoc. apply I2_call_enq; auto.
+  - apply I2_ret_ok; auto. rewrite map_kid_lkey. exact H0.
+  - apply I2_neutral; simpl; auto. apply I2_neutral; simpl; auto. apply I2_bump; auto.
+  - apply I2_try_ok; auto.
+  - apply I2_neutral; simpl; auto.
+  - exact I.
+  - apply I2_neutral; simpl; auto.
+  - exact I.
+  - rewrite H in I. simpl in I. rewrite app_nil_r. exact I.
+  - (* cb *)
+    destruct I1 as [_ Hw _ Hd]. unfold live in *. rewrite H in *. simpl in *.
+    inversion Hw as [|? ? [_ Hr] _]; subst. inversion Hd as [|? ? [Hz _] _]; subst.
+    assert (Hst : r_err r = 0%Z -> r_off r = r_total r) by (intros X; apply Hz in X; lia).
+    destruct (r_freed r); cbn; eapply I2_cb; eauto.
+  - exact I.
+  - apply I2_neutral; simpl; auto.
+  - exact I.
+  - apply I2_neutral; simpl; auto.
+  - rewrite app_nil_r. rewrite <- app_assoc. rewrite !map_app in *. rewrite map_lkey_set_err. exact I.
+  - apply I2_neutral; simpl; auto.
+  - apply I2_neutral; simpl; auto.
+Qed.
+
+Lemma Inv12_steps s s' : steps s s' -> Inv1 s /\ Inv2 s -> Inv1 s' /\ Inv2 s'.
+Proof. induction 1; auto. intros [A B]. apply IHsteps. split; eauto using Inv1_prim, Inv2_prim. Qed.
+
+Lemma Inv2_init blk o sa pw : Inv2 (init blk o sa pw).
+Proof.
+  unfold Inv2, init, live; cbn. constructor; simpl; auto; try constructor; try tauto.
+Qed.
